@@ -19,7 +19,7 @@ EXHAUSTIVE = True
 EXHAUSTIVE_NOTE = ("(a) every call history of length <= 3 over the problem pool is enumerated per solver configuration (all length-3 sequences; "
                    "each of their prefixes is a history of length 1 or 2); the public-function battery and the layouts are fixed lists")
 RULE = ("(a) history enumeration: for each solver class x configuration (NewtonSchulz x2, HigherOrder, QGMRES {max_iter None / 3, none / "
-        "left_lu}, RandomizedSketchProject {block 2 qr, block 16 spd}, Hybrid, CGNE {rank 0, rank 1}, DeepLinear) one object is reused for "
+        "left_lu}, RandomizedSketchProject {block 2 qr, block 16 spd}, Hybrid, CGNE {rank 0, 1, 2 (the sketch only matters from rank 2 on), rank 3 with constructor seed}, DeepLinear) one object is reused for "
         "EVERY sequence of 3 problems drawn from a pool of 4 (quick) / 5 (thorough) problems of different sizes, shapes and ranks; "
         "np.random.seed(S) before every call; the digest of call k (solution and all non-timing info fields) is compared with the table "
         "measured on fresh objects, and the object's __dict__ is digested before/after every call. (b) argument immutability: 84 public "
@@ -77,6 +77,8 @@ def _configs(R):
         ("Hybrid[r=2,p=2]", lambda: S.HybridRSPNewtonSchulz(r=1, p=2, T=2, max_iter=4, tol=1e-9), "compute", "pinv_tall"),
         ("CGNE[rank=0]", lambda: S.CGNEQSolver(max_iter=5, tol=1e-12), "compute", "pinv_tall"),
         ("CGNE[rank=1]", lambda: S.CGNEQSolver(max_iter=4, tol=1e-12, preconditioner_rank=1), "compute", "pinv_tall"),
+        ("CGNE[rank=2]", lambda: S.CGNEQSolver(max_iter=4, tol=1e-12, preconditioner_rank=2), "compute", "pinv_tall"),
+        ("CGNE[rank=3,seed=7]", lambda: S.CGNEQSolver(max_iter=3, tol=1e-12, preconditioner_rank=3, seed=7), "compute", "pinv_tall"),
         ("DeepLinear", lambda: S.DeepLinearNewtonSchulz(max_iter=2, tol=1e-6), "compute", "deep"),
     ]
 
@@ -108,7 +110,7 @@ def _state_digest(obj):
 def cases(tier, seed):
     out = []
     npool = 4 if tier == "quick" else 5
-    ncfg = 13
+    ncfg = 15
     for ci in range(ncfg):
         seqs = list(itertools.product(range(npool), repeat=3))
         out.append({"kind": "history", "cls": "history", "cfg": ci, "npool": npool, "seqs": [list(s) for s in seqs], "seed": seed})
